@@ -7,7 +7,9 @@ from pathlib import Path
 from harness.core import lean, sp
 
 SPLITS = ["train", "test", "holdout"]
-SUBS = {".": [], "a": [10], "b": [11], "a/y": [10, 20], "a/z": [10, 21], "b/y/q": [11, 20, 30], "c/y": [12, 20]}
+SUBS = {".": [], "a": [10], "b": [11], "a/y": [10, 20], "a/z": [10, 21], "b/y/q": [11, 20, 30], "c/y": [12, 20],
+        # sub-directories that are *named like a split* (a directory `train` below the split `test` is just a directory)
+        "train": [0], "test": [1], "a/train": [10, 0], "holdout/y": [2, 20]}
 NAME = {10: "a", 11: "b", 12: "c", 20: "y", 21: "z", 30: "q"}
 CODE = {v: k for k, v in NAME.items()}
 
@@ -132,14 +134,14 @@ def bad_write(f, split):
     raise AssertionError("a wrong-shape example was accepted")
 
 
-def run_history(root: Path, fmt: str, eps: int, hist):
+def run_history(root: Path, fmt: str, eps: int, hist, hashes=("sha256",)):
     """Execute on the real API. Returns per-session records."""
     import uuid as real_uuid
     import sedpack.io.dataset_writing as DW
     from sedpack.io import Dataset
     from sedpack.io.dataset_filler import DatasetFiller
     from sedpack.io.errors import DatasetExistsError
-    ds = sp.mk(root, fmt=fmt, eps=eps)
+    ds = sp.mk(root, fmt=fmt, eps=eps, hashes=tuple(hashes))
     counter = {"k": 0}
     class FakeUUID:
         def __init__(self, k): self.hex = f"w{k:08d}" + "0" * 23
